@@ -285,3 +285,27 @@ def known_class_pair(specs, N):
             if np.abs(A @ B - B @ A).max() > 1e-9:
                 return (i, j)
     return None
+
+
+def truly_commute(a, b):
+    """Do the two gates commute as operators?  Decided from the real library's matrices (dense, on a register just
+    large enough for both), independently of the scheduler's rule."""
+    N = max(used_of(a) | used_of(b)) + 1
+    A, B = gate_matrix(a, N), gate_matrix(b, N)
+    return bool(np.abs(A @ B - B @ A).max() <= 1e-9)
+
+
+def documented_rule(a, b):
+    """Fixed reference copy of the DOCUMENTED commutation rule (= QipVerif.C05.comm_rule_table), on specs
+    [name, targets, controls, arg].  It is never compared with the code here; it only *describes* the class
+    "pairs declared commuting" of the recorded known findings, independently of the code under test."""
+    na, nb = a[0], b[0]
+    ta, tb, ca, cb = sorted(a[1]), sorted(b[1]), sorted(a[2]), sorted(b[2])
+    if na != nb:
+        (x, tx, cx), (y, ty, cy) = sorted([(na, ta, ca), (nb, tb, cb)], key=lambda z: z[0])
+        if x == "CNOT" and y in ("X", "RX"):
+            return tx == ty
+        if x == "CNOT" and y in ("Z", "RZ"):
+            return cx == ty
+        return False
+    return bool(ca and ca == cb) or ta == tb
